@@ -30,10 +30,3 @@ let s_nodes l = String.concat " " (List.map (fun x -> string_of_int (int_of_n x)
 let handlers : (string * (unit -> unit)) list ref = ref []
 let register name f = handlers := (name, f) :: !handlers
 
-(* euler s t <m> (u v num den)*  ->  "OK <leftover> <walk...>" | "OUTOFFUEL" *)
-let () = register "euler" (fun () ->
-  let s = next_n () in let t = next_n () in
-  let es = next_list (fun () -> let u = next_n () in let v = next_n () in let x = next_q () in ((u, v), x)) in
-  match solution_walk es s t with
-  | None -> print_endline "OUTOFFUEL"
-  | Some (left, w) -> Printf.printf "OK %d %s\n" (int_of_nat left) (s_nodes w))
